@@ -4,10 +4,14 @@ import json
 import geoh5py.shared.utils as _U
 
 
+_REAL_NP = _U.np
+
+
 class _NP:
-    """pure-Python stand-in for the single numpy call on this path (np.isfinite in inf2str): listed stub"""
-    nan = _U.np.nan
-    inf = _U.np.inf
+    """pure-Python stand-ins for the scalar numpy predicates on this path (np.isfinite in inf2str; isinf / isnan in case
+    a refactor uses them); everything else is the real numpy: listed stub"""
+    nan = _REAL_NP.nan
+    inf = _REAL_NP.inf
 
     @staticmethod
     def isfinite(x):
@@ -15,8 +19,23 @@ class _NP:
             return True
         return not (x != x or x == float("inf") or x == float("-inf"))
 
+    @staticmethod
+    def isinf(x):
+        if isinstance(x, int):
+            return False
+        return x == float("inf") or x == float("-inf")
 
-_U.np = _NP
+    @staticmethod
+    def isnan(x):
+        if isinstance(x, int):
+            return False
+        return x != x
+
+    def __getattr__(self, name):
+        return getattr(_REAL_NP, name)
+
+
+_U.np = _NP()
 import geoh5py.ui_json.utils as _UU
 
 
@@ -763,6 +782,50 @@ def form_object_roundtrip_value_and_enabled__kf_F_C14_3(vi: int, has_opt: bool, 
 
 
 
+def data_or_value_routing_roundtrip(start_is_value: bool, give_uuid: bool, ui: int, has_opt: bool, enabled: bool) -> bool:
+    """
+    pre: 0 <= ui < 2
+    post: _
+    """
+    import uuid as _uuid
+    form = {"label": "lbl", "value": 100.0, "isValue": start_is_value, "property": None if start_is_value else UUIDS[1],
+            "parent": "obj", "association": "Vertex", "dataType": "Float"}
+    if has_opt:
+        form["optional"] = True
+        form["enabled"] = enabled
+    d0 = {"title": "t", "obj": {"label": "o", "value": UUIDS[0], "meshType": [UUIDS[1]]}, "p": form}
+    a = InputFile(ui_json=deepcopy(d0), validate=False)
+    new = _uuid.UUID(UUIDS[ui]) if give_uuid else 2.5
+    a.update_ui_values({"p": new})
+    if a.ui_json["p"]["isValue"] != (not give_uuid):
+        return False
+    back = _write_read(a.ui_json)
+    b = InputFile(ui_json=deepcopy(back), validate=False)
+    return b.data["p"] == new and b.ui_json["p"]["isValue"] == (not give_uuid)
+
+def data_or_value_routing_roundtrip__reach(start_is_value: bool, give_uuid: bool, ui: int, has_opt: bool, enabled: bool) -> bool:
+    """
+    pre: 0 <= ui < 2
+    post: False
+    """
+    import uuid as _uuid
+    form = {"label": "lbl", "value": 100.0, "isValue": start_is_value, "property": None if start_is_value else UUIDS[1],
+            "parent": "obj", "association": "Vertex", "dataType": "Float"}
+    if has_opt:
+        form["optional"] = True
+        form["enabled"] = enabled
+    d0 = {"title": "t", "obj": {"label": "o", "value": UUIDS[0], "meshType": [UUIDS[1]]}, "p": form}
+    a = InputFile(ui_json=deepcopy(d0), validate=False)
+    new = _uuid.UUID(UUIDS[ui]) if give_uuid else 2.5
+    a.update_ui_values({"p": new})
+    if a.ui_json["p"]["isValue"] != (not give_uuid):
+        return False
+    back = _write_read(a.ui_json)
+    b = InputFile(ui_json=deepcopy(back), validate=False)
+    return b.data["p"] == new and b.ui_json["p"]["isValue"] == (not give_uuid)
+
+
+
 def disabled_parameter_reads_none_and_stays_disabled(vi: int, enabled: bool, new_none: bool) -> bool:
     """
     pre: 0 <= vi < 3
@@ -802,7 +865,7 @@ if __name__ == '__main__':
     from math import inf, nan
     import sys
     try:
-        r = form_object_roundtrip_value_and_enabled(1, True, False, True, False, False)
+        r = form_object_roundtrip_value_and_enabled(1, False, False, False, False, False)
     except BaseException as e:
         print('RAISED', repr(e)); r = False
     print('condition form_object_roundtrip_value_and_enabled:', r)
